@@ -48,6 +48,7 @@ type world struct {
 	sh      *shadow
 	cur     *snapshot       // canonical state after the last op (nil: not computed)
 	keys    map[string]bool // declared public keys (hex of the canonical serialization)
+	dry     bool            // the current op is pre-executed: nothing is committed
 }
 
 // keyKnown: a string that denotes a public key may be used only after a `key` line declared that key (the model
@@ -175,7 +176,7 @@ func (w *world) invoke(signers []common.Address, contract common.Address, method
 	ip := states.ContractInvokeParam{Address: contract, Method: method, Args: args}
 	sink := common.NewZeroCopySink(nil)
 	ip.Serialization(sink)
-	svc, err := native.NewNativeService(cache, tx, 0, w.height, common.Uint256{}, 0, sink.Bytes(), false)
+	svc, err := native.NewNativeService(cache, tx, 0, w.height, common.Uint256{}, 0, sink.Bytes(), w.dry)
 	if err != nil {
 		panic(err)
 	}
@@ -183,7 +184,9 @@ func (w *world) invoke(signers []common.Address, contract common.Address, method
 	if err != nil {
 		return callResult{err: true}
 	}
-	cache.Commit()
+	if !w.dry {
+		cache.Commit()
+	}
 	out := callResult{events: eventNames(svc.GetNotify())}
 	if b, ok := res.([]byte); ok {
 		if len(b) == 1 && b[0] == 1 {
@@ -208,7 +211,7 @@ func (w *world) direct(signers []common.Address, f func(svc *native.NativeServic
 func (w *world) directIn(signers []common.Address, input []byte, f func(svc *native.NativeService) (bool, error)) callResult {
 	cache := storage.NewCacheDB(w.overlay)
 	tx := &types.Transaction{SignedAddr: signers}
-	svc, err := native.NewNativeService(cache, tx, 0, w.height, common.Uint256{}, 0, input, false)
+	svc, err := native.NewNativeService(cache, tx, 0, w.height, common.Uint256{}, 0, input, w.dry)
 	if err != nil {
 		panic(err)
 	}
@@ -216,7 +219,9 @@ func (w *world) directIn(signers []common.Address, input []byte, f func(svc *nat
 	if err != nil {
 		return callResult{err: true}
 	}
-	cache.Commit()
+	if !w.dry {
+		cache.Commit()
+	}
 	out := callResult{events: eventNames(svc.GetNotify()), ret: "0"}
 	if ok {
 		out.ret = "1"
